@@ -3,7 +3,8 @@ From Coq Require Import ZArith List Bool.
 From Coq Require String.
 From PS.model Require Import Smt Enc Ind Prog.
 From PS.spec Require Import Spec.
-From PS.proofs Require Import Base C08_proof Reach_proof C08_reach Examples3.
+From Coq Require Import Permutation Sorted.
+From PS.proofs Require Import Base C08_proof Reach_proof C08_reach SortNoDup IdleSum C04_distance C08_idle Examples3.
 Import ListNotations.
 Open Scope Z_scope.
 
@@ -15,7 +16,8 @@ Open Scope Z_scope.
    half-units of the trapezoid rule: 2I <= 2*const + area2 < 2I + 2), tardiness, earliness, number of tardy
    tasks, maximum lateness (bound + attained), buffer level extrema, minimum / greatest start, weighted start
    and completion times, flow time, user expressions; declared indicator targets and bounds hold.
-   PARTIAL: idle time, flow time of a single resource, and maximum lateness / tardy count over lists that
+   Idle time is C08_idle_time below (under the shape C02 gives the busy intervals).
+   PARTIAL: flow time of a single resource, and maximum lateness over lists that
    contain optional tasks are in spec_C08_swept (swept against the real constraint system on every run;
    known findings F34, F38 are reported from there). *)
 Theorem C08_indicators : forall (st : pstate) (e : env),
@@ -42,6 +44,30 @@ Theorem C08_nb_tardy_with_optional_tasks : forall ops st e r ts,
                (TAdd (map (fun t => when_t (FAnd [act t; FLt (TC (due_of t)) (E_ t)]) (TC 1)) (tasks_of (i_all r) ts)))) = true.
 Proof. exact nb_tardy_optional_sound. Qed.
 Print Assumptions C08_nb_tardy_with_optional_tasks.
+(* Idle time of a resource.  bspan e o x is the busy interval (start, end) of entry x of the resource under valuation e; gaps L is
+   the sum of (start of the next - end of this one) along L.  Whenever the busy intervals of the resource are parked (both ends
+   negative: not assigned) or assigned (non-negative start, positive length) and pairwise disjoint -- the shape C02 gives them on
+   a worker -- the indicator equals the sum of the gaps between consecutive assigned intervals in time order: for EVERY list L
+   that holds the assigned intervals sorted by start.  (The encoding sorts starts and ends separately; IdleSum.idle_value shows
+   the two sorted copies pair up as the intervals do.) *)
+Theorem C08_idle_time : forall st e r rc,
+  sat e (initialize st) -> In r (x_inds (ps_ext st)) -> i_expr r = IIdle rc ->
+  let o := own_w (rc_snap rc) in
+  feval e (busy_shape o (rs_own (rc_snap rc))) = true ->
+  feval e (busy_disjoint o (rs_own (rc_snap rc))) = true ->
+  forall L, Permutation L (filter (fun p => 0 <=? fst p) (map (bspan e o) (rs_own (rc_snap rc)))) ->
+            StronglySorted (fun p q => fst p < fst q) L ->
+  iv e (VInd (i_id r)) = gaps L.
+Proof. exact idle_time_sound. Qed.
+Print Assumptions C08_idle_time.
+Theorem C08_idle_time_example : exists st r rc L,
+  reaches ex3_prog st /\ sat ex3_env (initialize st) /\ In r (x_inds (ps_ext st)) /\ i_expr r = IIdle rc
+  /\ feval ex3_env (busy_shape (own_w (rc_snap rc)) (rs_own (rc_snap rc))) = true
+  /\ feval ex3_env (busy_disjoint (own_w (rc_snap rc)) (rs_own (rc_snap rc))) = true
+  /\ Permutation L (filter (fun p => 0 <=? fst p) (map (bspan ex3_env (own_w (rc_snap rc))) (rs_own (rc_snap rc))))
+  /\ StronglySorted (fun p q => fst p < fst q) L /\ L = [(2, 5); (6, 7)] /\ gaps L = 1 /\ iv ex3_env (VInd (i_id r)) = 1.
+Proof. exact idle_example. Qed.
+Print Assumptions C08_idle_time_example.
 Theorem C08_hypotheses_satisfiable : exists st, reaches ex3_prog st /\ sat ex3_env (su_asserts (solver_setup default_cfg st))
   /\ List.length (x_inds (ps_ext st)) = 14%nat /\ List.length (x_bufs (ps_ext st)) = 2%nat
   /\ List.length (x_objs (ps_ext st)) = 4%nat /\ List.length (spec_C08 st) = 19%nat.
